@@ -1093,6 +1093,11 @@ class Interp(object):
       raise EngineError("yield outside generator")
     v = self.eval(n.value, fr) if n.value is not None else None
     f.gen_out.py_append(self, v)
+    h = self.ctx.hooks.get('on_yield')
+    if h is not None:
+      # coroutine-style generators: the environment (the consumer and the other thread) takes
+      # its step while the generator is suspended here
+      h(self, v, fr)
     return None
 
   def iter_concrete(self, v):
